@@ -196,6 +196,25 @@ fn embedded(v: u64) -> Option<Violation> {
     if tail[..n] != exp[..n] || tail[n..] != exp[..n] {
         return Some(Violation::new("C08", "integer", "int-encoding", "embedded:Package".into(), format!("value={:#x} got={:02x?}", v, bytes)));
     }
+    // the same two elements added one by one: the integers are written into the builder, which is a
+    // sink of its own
+    bytes.clear();
+    let mut pb = aml::PackageBuilder::new();
+    pb.add_element(&v);
+    pb.add_element(&(v as usize));
+    pb.to_aml_bytes(&mut bytes);
+    let tail = &bytes[bytes.len() - 2 * n..];
+    if bytes.len() < 3 + 2 * n || tail[..n] != exp[..n] || tail[n..] != exp[..n] {
+        return Some(Violation::new("C08", "integer", "int-encoding", "embedded:PackageBuilder".into(), format!("value={:#x} got={:02x?}", v, bytes)));
+    }
+    // ... and written straight into the generic table, the crate's other sink
+    let mut t = acpi_tables::sdt::Sdt::new(*b"TEST", 36, 1, *b"OEMIDX", *b"TABLEID0", 1);
+    v.to_aml_bytes(&mut t);
+    (v as usize).to_aml_bytes(&mut t);
+    let img = t.as_slice();
+    if img.len() != 36 + 2 * n || img[36..36 + n] != exp[..n] || img[36 + n..] != exp[..n] {
+        return Some(Violation::new("C08", "integer", "int-encoding", "via-sink:Sdt".into(), format!("value={:#x} got={:02x?}", v, &img[36..])));
+    }
     bytes.clear();
     aml::OpRegion::new("REGN".into(), aml::OpRegionSpace::SystemMemory, &v, &(v as usize)).to_aml_bytes(&mut bytes);
     let tail = &bytes[7..];
